@@ -84,16 +84,17 @@ func runMHist(t *Toks) string {
 	return strings.TrimSpace(fmt.Sprintf("calls=%d %s", len(out), strings.Join(out, " ")))
 }
 
-// S: whatever was extracted or edited before, a call on the object must return what a freshly decoded
-// proof with the object's present count / hashes / flag bits returns (the property speaks about proofs,
-// and an altered count / flag / hash is an altered proof wherever the alteration is made).
+// S: with FBad clear on entry, whatever was extracted or edited before, a call on the object must return
+// what a freshly decoded proof with the object's present count / hashes / flag bits returns (an altered
+// count / flag / hash is an altered proof wherever the alteration is made).  FBad is an exported field of
+// the value and part of it: an object that carries FBad = true is not a proof as built or decoded, and
+// the expected verdict for it is "refused" (Bitcoin Core's CPartialMerkleTree behaves the same).
 func checkC20MHist(t *Toks) string {
 	blob, ops := readMHist(t)
 	mb, err := block.NewMerkleBlockFromBuffer(bytes.NewBuffer(append([]byte{}, blob...)))
 	if err != nil {
 		return "SKIP parse-err"
 	}
-	soft := ""
 	calls := 0
 	for k, o := range ops {
 		if o.kind != "x" {
@@ -103,16 +104,18 @@ func checkC20MHist(t *Toks) string {
 		pt := mb.PartialMerkleTree
 		fbadBefore := pt.FBad
 		got := extractVerdict(mb)
+		calls++
+		if fbadBefore {
+			if got != "err" {
+				return fail("history-fbad-ignored", fmt.Sprintf("accepted-with-FBad-set/call=%d/op=%d", calls, k))
+			}
+			continue
+		}
 		fresh := "err"
 		if r := runProof(mkBlob(blob[:80], pt.TxTotalCount, pt.TxHashes, packBits(pt.VBits))); r.class == "ok" {
 			fresh = fmt.Sprintf("ok:%s:%s", hx(r.root), hexList(r.matches))
 		}
-		calls++
 		if got == fresh {
-			continue
-		}
-		if fbadBefore && got == "err" {
-			soft = fail("history-sticky-fbad", "genuine-proof-refused-after-a-bad-one")
 			continue
 		}
 		what := "accepts-what-a-fresh-object-refuses"
@@ -122,9 +125,6 @@ func checkC20MHist(t *Toks) string {
 			what = "different-root-or-matches"
 		}
 		return fail("history-verdict-differs", fmt.Sprintf("%s/call=%d/op=%d/count=%d", what, calls, k, pt.TxTotalCount))
-	}
-	if soft != "" {
-		return soft
 	}
 	return "OK"
 }
